@@ -298,7 +298,21 @@ def gen_wrapped_case(rng, tier):
         pool = [None, u"", u"x", u"\U0001f600\x00", b"\x00b", 0, -1, 2 ** 70, 1.5, [1, u"a", None], {"k": [1, 2]},
                 (1, 2), {}, [], True]
         vals = [rng.choice(pool) for _ in range(n)]
-    elif kind == "compressed" or kind == "cblock":
+    elif kind == "cblock":
+        # block-structured column: the number of blocks is what matters.  Block size in bytes 0 (every
+        # value closes a block), a few bytes (some documents per block), 1 KB, the default 32 KB
+        # (reached with a few large values); more rows than the other kinds so that there are 3+ blocks
+        blockbytes = rng.choice([0, 0, 4, 16, 1024, 32 * 1024])
+        n = rng.choice([0, 1, 2, 4, 9, 14, 25])
+        ds, doccount = gen_docnums(rng, n)
+        if blockbytes >= 1024:
+            vals = [gen_bytes(rng, 40) if rng.random() < 0.5 else
+                    bytes([rng.randrange(256)]) * rng.choice([blockbytes // 3, blockbytes // 2, blockbytes, blockbytes + 1])
+                    for _ in range(n)]
+        else:
+            vals = [gen_bytes(rng, 40) for _ in range(n)]
+        return {"type": kind, "adds": list(zip(ds, vals)), "doccount": doccount, "blockbytes": blockbytes}
+    elif kind == "compressed":
         vals = [gen_bytes(rng, 40) for _ in range(n)]
     elif kind == "struct":
         vals = [(rng.randint(-2 ** 15, 2 ** 15 - 1), rng.randint(0, 2 ** 32 - 1)) for _ in range(n)]
@@ -327,7 +341,8 @@ def wrapped_column(case):
     if k == "compressed":
         return columns.CompressedBytesColumn(), b""
     if k == "cblock":
-        return columns.CompressedBlockColumn(), b""
+        # blocksize is in KB (the writer multiplies by 1024); fractions give blocks of a few bytes
+        return columns.CompressedBlockColumn(blocksize=case.get("blockbytes", 32 * 1024) / 1024.0), b""
     if k == "struct":
         return columns.StructColumn("!hI", (0, 7)), (0, 7)
     if k == "float-d":
@@ -709,7 +724,7 @@ def _compare_api(c, r, speclines, bad, stats):
 # segments: MultiColumnReader over segments with and without the column file, then the column copy
 # of a merge (`SegmentWriter.write_per_doc`) — against the model's `multiGet` / `mergeColumnAdds`
 
-SEG_KINDS = ["var", "ref", "num", "fixed"]
+SEG_KINDS = ["var", "ref", "num", "fixed", "cblock0", "cblock8"]
 
 
 def seg_field(kind):
@@ -720,6 +735,9 @@ def seg_field(kind):
         return fields.ID(sortable=columns.RefBytesColumn()), u""
     if kind == "fixed":
         return fields.ID(sortable=columns.FixedBytesColumn(4)), u"\x00\x00\x00\x00"
+    if kind.startswith("cblock"):
+        # CompressedBlockColumn with blocks of >= 0 / >= 8 bytes: every segment with values has several blocks
+        return fields.ID(sortable=columns.CompressedBlockColumn(blocksize=int(kind[6:]) / 1024.0)), u""
     return fields.NUMERIC(int, bits=16, signed=True, sortable=True, default=-3), -3
 
 
@@ -730,6 +748,11 @@ def gen_seg_case(rng, tier):
     for _ in range(nseg):
         n = rng.choice([1, 1, 2, 3, 5])
         mode = rng.choice(["none", "some", "some", "all"])
+        if kind == "cblock8":
+            # a document without a value *inside* a block raises KeyError (recorded finding, reported by the
+            # wrapped stream); with several documents per block every document of a segment has a value or none has
+            n = rng.choice([2, 3, 5, 8])
+            mode = rng.choice(["none", "all", "all"])
         docs = []
         for _ in range(n):
             has = mode == "all" or (mode == "some" and rng.random() < 0.5)
